@@ -231,6 +231,28 @@ impl<C: Suite> Model for M03<C> {
                     o.expect(&format!("C03:zkcrypto-vector:{}", g), pkb == v, "i*G vector", "differs");
                     o.outcome(if pkb == v { "small-key:vector-equal" } else { "small-key:vector-differs" });
                 }
+                // the other public routes to the same derivations agree with the reference too
+                o.expect(&format!("C03:public-key-from-impl:{}", g), Vec::<u8>::from(&PublicKey::<C>::from(&sk)) == rpk, "equal to reference SkToPk", "differs");
+                if let KeySrc::KeyGen(i) = src {
+                    let k2 = BlsSignature::<C>::secret_key_from_hash(&self.seeds[*i]);
+                    o.expect(&format!("C03:secret-key-bytes:{}:BlsSignature::secret_key_from_hash", g), k2.to_be_bytes() == rf::scalar_to_be(&rsk), "equal to reference KeyGen", "differs");
+                    let ch = ProofCommitmentChallenge::<C>::from_hash(&self.seeds[*i]);
+                    let ch2 = BlsSignature::<C>::proof_challenge_from_hash(&self.seeds[*i]);
+                    o.expect(&format!("C03:challenge-from-hash:{}", g), ch.to_be_bytes() == rf::scalar_to_be(&rsk) && ch2 == ch, "equal to the reference derivation", "differs");
+                }
+                if let KeySrc::Random(i) = src {
+                    let mk = || rand_chacha::ChaCha20Rng::from_seed(self.rngs[*i]);
+                    let k2 = BlsSignature::<C>::random_secret_key(mk());
+                    let e = SecretKeyEnum::random(if g == "G1" { Bls12381::G1 } else { Bls12381::G2 }, mk());
+                    let eb = match &e {
+                        SecretKeyEnum::G1(k) => k.to_be_bytes(),
+                        SecretKeyEnum::G2(k) => k.to_be_bytes(),
+                    };
+                    let ch = ProofCommitmentChallenge::<C>::random(mk());
+                    let ch2 = BlsSignature::<C>::random_proof_challenge(mk());
+                    let want = rf::scalar_to_be(&rsk);
+                    o.expect(&format!("C03:random-routes:{}", g), k2.to_be_bytes() == want && eb == want && ch.to_be_bytes() == want && ch2 == ch, "every seeded-RNG route derives KeyGen(rng.gen::<[u8;32]>())", "differs");
+                }
                 if let KeySrc::KeyGen(i) = src {
                     // the curve tagged wrapper derives the same key
                     let e = SecretKeyEnum::from_hash(if g == "G1" { Bls12381::G1 } else { Bls12381::G2 }, &self.seeds[*i]);
